@@ -429,7 +429,67 @@ def collinear_collections(ctx, n):
             ctx.disagree("C10:is_collinear:mixed-collection", desc, [exp[i] for i in order], r[1:3], replay=[desc])
 
 
+def scaled_parallel_stream(ctx, n):
+    """is_parallel for subspaces whose coefficient vectors carry a small (or large) non-unit homogeneous factor: lines / planes that
+    meet far away under a small angle are NOT parallel, exactly parallel ones are — for every representative"""
+    import geometer as g
+    rng = ctx.rng
+    for k in range(n):
+        m = rng.choice([1 / 1024, 1 / 512, 1 / 4096])         # slope of the second line / plane against the first
+        c = float(rng.choice([1, 2, -3]))
+        s1, s2 = rng.choice([2.0 ** -10, 2.0 ** -12, 1.0, 2.0 ** 9]), rng.choice([2.0 ** -10, 2.0 ** -13, 1.0, 2.0 ** 7])
+        par = (k % 3 == 0)
+        mm = 0.0 if par else m
+        kind = rng.choice(["line2", "plane", "plane-line3"])
+        if kind == "line2":
+            a, b = g.Line(np.array([0.0, 1.0, 0.0]) * s1), g.Line(np.array([mm, -1.0, -c]) * s2)
+            f = lambda: (bool(a.is_parallel(b)), bool(b.is_parallel(a)))
+        elif kind == "plane":
+            a, b = g.Plane(np.array([0.0, 0.0, 1.0, 0.0]) * s1), g.Plane(np.array([mm, 0.0, -1.0, -c]) * s2)
+            f = lambda: (bool(a.is_parallel(b)), bool(b.is_parallel(a)))
+        else:
+            # the line y = 0, z = mm x - c  against the plane z = 0
+            a = g.Plane(np.array([0.0, 0.0, 1.0, 0.0]) * s1)
+            b = g.Line(g.Point(0.0, 0.0, -c), g.Point(1024.0, 0.0, 1024.0 * mm - c))
+            f = lambda: (bool(a.is_parallel(b)), bool(b.is_parallel(a)))
+        desc = f"is_parallel {kind} slope={mm} offset={c} factors={s1},{s2}"
+        ctx.case(desc)
+        ctx.count(f"scaled-parallel:{kind}:{'parallel' if par else 'meeting'}")
+        r = call_impl(f)
+        if r[0] != "ok" or r[1] != (par, par):
+            ctx.disagree(f"C10:scaled-parallel:{kind}:{'parallel' if par else 'meeting'}", desc, (par, par), r[1:3], replay=[desc])
+
+
+def cocircular3d_stream(ctx, n):
+    """is_cocircular for points of space: four points of a circle in a plane of space are cocircular; moving the fourth point off
+    the plane of the other three (or off the circle inside the plane) makes the answer False"""
+    import geometer as g
+    rng = ctx.rng
+    FR = [((1, 0, 0), (0, 1, 0), (0, 0, 1)), ((2 / 3, 1 / 3, 2 / 3), (-1 / 3, -2 / 3, 2 / 3), (2 / 3, -2 / 3, -1 / 3)),
+          ((0.6, 0.8, 0), (-0.8, 0.6, 0), (0, 0, 1)), ((0, 0.6, 0.8), (0, -0.8, 0.6), (1, 0, 0))]
+    PYTH = [(3, 4), (4, 3), (-3, 4), (3, -4), (-4, -3), (5, 0), (0, -5), (0, 5), (-5, 0), (-4, 3)]
+    for k in range(n):
+        u, v, w = (np.array(x, dtype=float) for x in rng.choice(FR))
+        c = np.array([float(rng.randint(-3, 3)) for _ in range(3)])
+        ps = rng.sample(PYTH, 4)
+        pts = [c + a * u + b * v for a, b in ps]
+        mode = rng.choice(["on", "on", "off-plane", "off-circle"])
+        if mode == "off-plane":
+            pts[3] = pts[3] + float(rng.choice([1, -2, 3])) * w
+        elif mode == "off-circle":
+            pts[3] = c + 2.0 * u + 1.0 * v
+        P = [g.Point(*[float(x) for x in p]) for p in pts]
+        desc = f"is_cocircular in space: centre {c.tolist()} frame {u.tolist()},{v.tolist()} points {ps} fourth {mode}"
+        ctx.case(desc)
+        ctx.count("cocircular3d:" + mode)
+        r = call_impl(lambda: bool(g.is_cocircular(*P)))
+        if r[0] != "ok" or r[1] != (mode == "on"):
+            ctx.disagree("C10:cocircular3d:" + mode, desc, mode == "on", r[1:3], replay=[desc])
+
+
 def correspondence(ctx):
+    cocircular3d_stream(ctx, ctx.budget(40, 400))
+    scaled_parallel_stream(ctx, ctx.budget(60, 600))
     collinear_collections(ctx, ctx.budget(30, 300))
     witnesses(ctx)
     hyper_stream(ctx, ctx.budget(300, 5000))
